@@ -132,6 +132,50 @@ def plant_if_scopes(g):
     return outs or None
 
 
+def plant_operator_table(g):
+    """Nodes of the operators that exporters / printers render with Python operator syntax (arithmetic, comparison, logic, unary minus,
+    MatMul, Mod with and without fmod, Pow), on integer and floating-point inputs of either sign, their results kept as graph outputs:
+    whatever a rendering drops (an attribute, the operand order) shows in the values."""
+    import numpy as np
+    from vf.modelgen import BOOL, F32, I32, I64
+
+    if g.depth:
+        return None
+    dt = g.pick([I64, I64, I32, F32])
+    n = g.pick([3, 2, 4])
+    x = g.add_input(dt, (n,), style="mixed")
+    outs = []
+    for _ in range(g.pick([2, 3, 4])):
+        op = g.pick(["Mod", "Mod", "Sub", "Div", "Add", "Mul", "Less", "Greater", "LessOrEqual", "GreaterOrEqual", "Equal", "Neg", "Pow", "MatMul", "And", "Or", "Not"])
+        vals = [g.pick([2, 3, -3, 5, -2, 7]) for _ in range(n)]
+        w = g.const_array(np.asarray(vals, dtype=dt), how=g.pick(["node", "init"]))
+        swap = g.chance(3)
+        a, b = (w, x) if swap and op not in ("Mod", "Div", "Pow") else (x, w)
+        if op == "Mod":
+            fm = 1 if (dt == F32 or g.chance(6)) else 0
+            r = g.emit("Mod", [a, b], **({"fmod": 1} if fm else {}))
+        elif op == "Pow":
+            r = g.emit("Pow", [g.emit("Abs", [x])[0], g.const_array(np.asarray(g.pick([2, 3, 1]), dtype=dt))]) if dt == F32 else None
+        elif op == "Neg":
+            r = g.emit("Neg", [x])
+        elif op == "MatMul":
+            r = g.emit("MatMul", [a, b])
+        elif op in ("And", "Or", "Not"):
+            c1 = g.emit("Less", [x, w])
+            c2 = g.emit("Greater", [x, g.const_array(np.asarray([0] * n, dtype=dt))])
+            if not c1 or not c2:
+                continue
+            r = g.emit("Not", [c1[0]]) if op == "Not" else g.emit(op, [c1[0], c2[0]])
+        else:
+            r = g.emit(op, [a, b])
+        if r:
+            outs.append(r[0])
+    if not outs:
+        return None
+    g.features.add("planted:operator_table")
+    return outs
+
+
 def plant_overridable_shape_operand(g):
     """An overridable initializer (initializer that is also a graph input) used as the shape-determining DATA operand of an operator
     (Reshape target, Expand shape, Tile repeats, ConstantOfShape, Slice bounds, axes, Range limit), followed by shape-only consumers.
